@@ -32,6 +32,9 @@ STREAM_BOTH = {
 }
 
 
+Q0_OK = ("Madgwick", "Mahony", "EKF", "UKF", "AQUA", "ROLEQ", "Fourati", "AngularRate", "Complementary")
+
+
 def pose_history(kind, conv, n):
     """exact canonical poses: tilt kind at successive headings (rotation about the vertical), repeated"""
     g = (0, 0, 1) if conv == 0 else (0, 0, -1)
@@ -110,8 +113,14 @@ def run_cfg(args):
                     t.calls += 1
                     t.keys.add((cname, cfg["gain"], cfg["rate"], hc, n, s))
                     built = []
-                    o = core.outcome(lambda: (built.append(FL.batch(cfg, gyr, acc, mag)), built[0][1])[1])
-                    case = {"cfg": cfg, "history": hc, "n": n, "variant": s, "acc0": acc[0], "mag0": mag[0]}
+                    # every second random history hands the recursive filters an initial attitude that is unit only to a few parts
+                    # per million (as read from a log): legal for every constructor, and row 0 must still be a unit quaternion
+                    q0 = None
+                    if hc in ("random", "decades") and s % 2 == 1 and cfg["f"] in Q0_OK and cfg["rep"] == "quaternion":
+                        q0 = rng.normal(size=4)
+                        q0 = q0 / np.linalg.norm(q0) * (1.0 + (8e-6 if s % 4 == 1 else -6e-6))
+                    o = core.outcome(lambda: (built.append(FL.batch(cfg, gyr, acc, mag, q0=q0)), built[0][1])[1])
+                    case = {"cfg": cfg, "history": hc, "n": n, "variant": s, "acc0": acc[0], "mag0": mag[0], "q0": q0}
                     pose = "canonical-pose" if hc not in ("random", "decades", "angle-sweep") else "random"
                     case["pose"] = hc
                     if o[0] != "ok":
